@@ -565,15 +565,25 @@ func semEq(a, b string) bool {
 	return bytes.Equal(bx, by)
 }
 
+func lowerFirst(m string) string {
+	if m == "" {
+		return m
+	}
+	return strings.ToLower(m[:1]) + m[1:]
+}
+
+// f is what is handed to the library; ref is the harness's own statement of what that formatter means
+// (the reference tables are built with ref, never by calling the library's formatter).
 var c01Formatters = []struct {
 	name string
 	f    jsonrpc.MethodNameFormatter
+	ref  func(ns, m string) string
 }{
-	{"ns+orig", jsonrpc.NewMethodNameFormatter(true, jsonrpc.OriginalCase)},
-	{"ns+lower", jsonrpc.NewMethodNameFormatter(true, jsonrpc.LowerFirstCharCase)},
-	{"orig", jsonrpc.NewMethodNameFormatter(false, jsonrpc.OriginalCase)},
-	{"lower", jsonrpc.NewMethodNameFormatter(false, jsonrpc.LowerFirstCharCase)},
-	{"custom_sep", func(ns, m string) string { return ns + "_" + strings.ToUpper(m[:1]) + m[1:] }},
+	{"ns+orig", jsonrpc.NewMethodNameFormatter(true, jsonrpc.OriginalCase), func(ns, m string) string { return ns + "." + m }},
+	{"ns+lower", jsonrpc.NewMethodNameFormatter(true, jsonrpc.LowerFirstCharCase), func(ns, m string) string { return ns + "." + lowerFirst(m) }},
+	{"orig", jsonrpc.NewMethodNameFormatter(false, jsonrpc.OriginalCase), func(ns, m string) string { return m }},
+	{"lower", jsonrpc.NewMethodNameFormatter(false, jsonrpc.LowerFirstCharCase), func(ns, m string) string { return lowerFirst(m) }},
+	{"custom_sep", func(ns, m string) string { return ns + "_" + strings.ToUpper(m[:1]) + m[1:] }, func(ns, m string) string { return ns + "_" + strings.ToUpper(m[:1]) + m[1:] }},
 }
 
 func (c01) Plan(tier string, seed int64) []core.Scenario {
